@@ -2209,9 +2209,10 @@ def _helper_call(k, ai):
 
 
 def gen_helper_cases(chk):
-    """histories of standard_userset calls in one process: every sequence of <= 2 (thorough: <= 3) calls over the 6
-    argument combinations x every assignment of two of the results to the object types doc / folder, over a store
-    with nested objects of both types; all 126 (user, role, object) queries; longer histories on a stride."""
+    """histories of standard_userset calls in one process: every sequence of <= 2 calls over the 6 argument
+    combinations x every assignment of two of the results to the object types doc / folder, over a store with nested
+    objects of both types; all 126 (user, role, object) queries; sequences of 3 and 4 calls x assignments on a stride
+    (thorough: every 2nd of the 1944 of length 3)."""
     thorough = chk.tier == "thorough"
     out, k = [], 0
     lims = [NOLIMIT, lim(2, 10000)] + ([lim(1, 10000), lim(None, None, None)] if thorough else [])
@@ -2219,7 +2220,7 @@ def gen_helper_cases(chk):
         for seq in itertools.product(range(len(HELPER_ARGS)), repeat=n):
             for di, fi in itertools.product(range(n), repeat=2):
                 k += 1
-                stride = {1: 1, 2: 1, 3: 1 if thorough else 37, 4: 29 if thorough else 601}[n]
+                stride = {1: 1, 2: 1, 3: 2 if thorough else 37, 4: 59 if thorough else 601}[n]
                 if k % stride:
                     continue
                 ops = [_helper_call(k + j, ai) for j, ai in enumerate(seq)]
@@ -2235,7 +2236,7 @@ def gen_helper_random(chk):
     doc / folder / group over random layered stores (caveats, cycles, groups)."""
     rng = chk.rng
     out = []
-    for _ in range(150 if chk.tier == "quick" else 5000):
+    for _ in range(150 if chk.tier == "quick" else 3000):
         store, _rules, reg, queries = gen_layered(rng)
         ops, ncalls = [], 0
         for _j in range(rng.randint(1, 4)):
@@ -2314,8 +2315,8 @@ def run(chk):
                 "in the harness (spec_standard_userset), not against what it returns: after EVERY call every result so "
                 "far must be the documented rule map of its own arguments (up to order / repetition / nesting of union "
                 "members), and a checker whose object types doc / folder take the results of two (same or different) "
-                "calls must answer as the model does on the documented maps; every sequence of <= 2 calls (thorough: "
-                "<= 3; 3 and 4 on a stride) over the 6 argument combinations (parent relation none / parent / org x "
+                "calls must answer as the model does on the documented maps; every sequence of <= 2 calls (3 and 4 "
+                "calls on a stride; thorough: every 2nd (sequence, assignment) of length 3) over the 6 argument combinations (parent relation none / parent / org x "
                 "group grants on / off; defaults omitted or explicit, keyword or positional) x every assignment of "
                 "results to the two types x all 126 (user, role, object) queries over a store with nested objects of "
                 "both types under both parent relations x max_depth {8, 2} (thorough + {1, default}); seeded random "
